@@ -19,6 +19,7 @@ RULE = (
     "names / aliases / omitted names); the line is parsed strict+lenient x argv+string and every read path is compared "
     "with the assignment. Part 'enum' walks the complete decision tree of the generator for each catalogue format "
     "(64 one-option kinds x 8 argument shapes, 144 two-option formats) up to a per-format cap; part 'random' is seeded. "
+    "Also: arguments named like the parser's placeholders (cmd11, cmd12, cmd21) under a CPU-time budget; string values with line feed, tab and combining marks. "
     "non-trivial = line with >=1 option and >=1 positional, or grouping / '--' / omitted names; distinct by "
     "(format shape, spelling pattern, names mode)."
 )
